@@ -26,6 +26,71 @@ EXPLANATION = (
 ASSUMPTIONS = ['clang 14 CFG', 'xfree releases the node; the cleanup callback only releases what the element owns']
 
 
+def string_comparators_reach_the_end(P, R, rule='C19.GRD.4'):
+    """A comparator over strings that scans the bytes itself: when its loop stops because ONE string has ended, the
+    answer still depends on the other string's byte at that position ("ab" < "abc") - so on every path from such a loop
+    exit to a return, the bytes at the stop position are read again (or the value returned is a constant).  A scan that
+    returns the last difference it computed calls a string equal to every string it is a prefix of."""
+    fns = {}
+    for f in P.unit_fns(UNIT):
+        if f.name.startswith('set_compare_'):
+            fns[f.key] = f
+    for k in P.slots().get('set::compare', ()):
+        fns[k] = P.fns[k]
+    n = 0
+
+    def char_reads(ex):
+        out = []
+        for x in walk(ex):
+            if x.get('k') == 'un' and x.get('op') == '*' and 'char' in (x.get('t') or (x.get('e') or {}).get('t', '').rstrip('* ').strip()):
+                out.append(x)
+            if x.get('k') == 'idx' and 'char' in (x.get('t') or ''):
+                out.append(x)
+        return out
+    for f in fns.values():
+        loops = rules.loops_of(f)
+        for head, body in loops:
+            body = set(body) | {head}
+            for bid in body:
+                for e in f.out[bid]:
+                    if e.dst in body:
+                        continue
+                    r = rules.edge_rel(e)
+                    if not (r and r[1] == '==' and const_of(r[2]) == 0 and char_reads(r[0])):
+                        continue
+                    # from this exit: is a return reached without reading a byte again?
+                    def reads_again(t):
+                        return any(char_reads(ex) for ex in rules.event_exprs(t.ev)) and t.ev['k'] != 'ret' or \
+                            (t.ev['k'] == 'ret' and (isinstance(const_of(t.ev.get('val')), int) or bool(char_reads(t.ev.get('val') or {}))))
+                    seen = set()
+                    work = [e.dst]
+                    bad = None
+                    while work and bad is None:
+                        b = work.pop()
+                        if b in seen:
+                            continue
+                        seen.add(b)
+                        stop = False
+                        for t in f.block_sites(b):
+                            if reads_again(t):
+                                stop = True
+                                break
+                            if t.ev['k'] == 'ret':
+                                bad = t
+                                stop = True
+                                break
+                        if stop:
+                            continue
+                        c = (f.blocks[b].get('term') or {}).get('cond')
+                        if c is not None and char_reads(c):
+                            continue
+                        work += [x.dst for x in f.out[b]]
+                    n += 1
+                    R.ob(rule, bad is None, bad or f, 'in %s a scan that stops at the end of one string (%s) is followed by a look at the bytes there before the result is returned' % (f.name, sx(r[0])), key='scan-end:%s' % f.name)
+    R.ob(rule, True, P.need_fn('set_compare_charp'), 'string comparators with a scan loop of their own: %d exit(s) at the end of a string' % n, key='scan-end:walked', nontrivial=False)
+    R.floor(rule, 1)
+
+
 def comparators(P, R, rule='C19.ARITH.1'):
     fns = {}
     for f in P.unit_fns(UNIT):
@@ -647,4 +712,5 @@ def run(P, R, tier):
     # the element count is a full-width counter
     rules.narrowing_fields(P, R, 'C19.WID.1', ('src/set.c',))
     rules.counter_widths(P, R, 'C19.WID.2', recs=('set',))
+    string_comparators_reach_the_end(P, R)
     return EXPLANATION, ASSUMPTIONS
